@@ -56,6 +56,9 @@ type cgScenario struct {
 	Members  []cgMember
 	Faults   map[string][]int
 	Stored   map[string]int64 // "topic/part" -> committed offset before the run
+	// "topic/part" -> how many ListOffsets answers for that partition fail (NOT_LEADER): two make one
+	// offset lookup fail, so the first attempt to start a claim on it fails
+	ClaimStartFails map[string]int
 	Oldest   bool
 	Auto     bool
 }
@@ -87,6 +90,7 @@ type cgEv struct {
 }
 
 type cgResult struct {
+	listOffsetsFailed int64 // ListOffsets answers turned into NOT_LEADER (ClaimStartFails)
 	sc            *cgScenario
 	newErr        error
 	events        []cgEv
@@ -324,6 +328,9 @@ func cgScenarioFor(rng *rand.Rand, multi bool) *cgScenario {
 			}
 		}
 	}
+	if rng.Intn(6) == 0 {
+		sc.ClaimStartFails = map[string]int{fmt.Sprintf("%s/%d", sc.Topics[rng.Intn(len(sc.Topics))], rng.Intn(sc.Parts)): 2 + 2*rng.Intn(2)}
+	}
 	if rng.Intn(3) != 0 {
 		n := 1 + rng.Intn(4)
 		for i := 0; i < n; i++ {
@@ -370,6 +377,13 @@ func cgCore(tier string) []*cgScenario {
 					Members: []cgMember{{Behaviour: beh, K: 4, CloseAfter: -1, MaxCalls: 6}}, Faults: map[string][]int{kind: w}, Stored: map[string]int64{"t/1": 3}}
 				out = append(out, sc)
 			}
+		}
+	}
+	// one claim cannot be started (its offset lookups fail): that ends the session, the next one runs normally
+	for _, beh := range []string{"all", "return-after-k", "block"} {
+		for _, fails := range []int{2, 4} {
+			out = append(out, &cgScenario{Brokers: 1, Topics: []string{"t"}, Parts: 2, LogN: 12, Strategy: "range", Auto: true, Oldest: true, Faults: map[string][]int{},
+				Stored: map[string]int64{}, ClaimStartFails: map[string]int{"t/1": fails}, Members: []cgMember{{Behaviour: beh, K: 4, CloseAfter: -1, MaxCalls: 8}}})
 		}
 	}
 	// committed offsets outside the log: the configured initial position applies
@@ -467,6 +481,24 @@ func runGroup(sc *cgScenario, rng *rand.Rand) *cgResult {
 		return sarama.VSimGroupAction{}
 	}
 
+	if len(sc.ClaimStartFails) > 0 {
+		left := map[string]int{}
+		for k, v := range sc.ClaimStartFails {
+			left[k] = v
+		}
+		var lmu sync.Mutex
+		sim.OnListOffsets = func(topic string, partition int32) sarama.KError {
+			lmu.Lock()
+			defer lmu.Unlock()
+			k := fmt.Sprintf("%s/%d", topic, partition)
+			if left[k] > 0 {
+				left[k]--
+				atomic.AddInt64(&res.listOffsetsFailed, 1)
+				return sarama.ErrNotLeaderForPartition
+			}
+			return sarama.ErrNoError
+		}
+	}
 	var total int64
 	closeStart := make([]int64, len(sc.Members)) // progress counter when a member's Close began (0 = not yet, -1 = returned)
 	var running int64                            // members that have started and not finished
@@ -755,6 +787,7 @@ func judgeGroup(res *cgResult) proto.Rec {
 		}
 	}
 	rec.Obs["sessions"] = int64(len(order))
+	rec.Obs["list_offsets_failed_on_purpose"] = atomic.LoadInt64(&res.listOffsetsFailed)
 	completed := !res.stuck && res.inconcl == ""
 	for _, s := range order {
 		k := key{s.member, s.call}
@@ -782,6 +815,35 @@ func judgeGroup(res *cgResult) proto.Rec {
 				anyMsgs = true
 			}
 		}
+		if started < totalClaims && s.setupRet != 0 && !s.setupErr {
+			// exactly one ConsumeClaim per assigned partition unless the session is already ending: a session
+			// that goes on heartbeating successfully long after its last claim started is not ending
+			last := s.setupRet
+			for _, st := range s.starts {
+				if st.Seq > last {
+					last = st.Seq
+				}
+			}
+			beats := 0
+			for _, g := range res.group {
+				if g.Kind == "heartbeat" && g.Code == 0 && g.Member == s.memberID && g.Generation == s.gen && g.Seq > last && (s.cleanup == 0 || g.Seq < s.cleanup) {
+					beats++
+				}
+			}
+			rec.Obs["sessions_with_unstarted_claims"]++
+			if beats >= 12 {
+				var missing []string
+				for t, ps := range s.claims {
+					for _, p := range ps {
+						if s.starts[fmt.Sprintf("%s/%d", t, p)] == nil {
+							missing = append(missing, fmt.Sprintf("%s/%d", t, p))
+						}
+					}
+				}
+				sort.Strings(missing)
+				vs.add("lifecycle", "claim-never-started", fmt.Sprintf("%s: assigned %v never got a ConsumeClaim although the session went on for %d successful heartbeats after its last claim had started", who, missing, beats))
+			}
+		}
 		if started > 0 && started < totalClaims && anyMsgs && !s.setupErr {
 			// a session that ran long enough to deliver messages must have started every claim, unless its context was already done when the missing claim was due
 			ctxDoneSeen := false
@@ -790,9 +852,7 @@ func judgeGroup(res *cgResult) proto.Rec {
 					ctxDoneSeen = true
 				}
 			}
-			if !ctxDoneSeen {
-				rec.Obs["sessions_with_unstarted_claims"]++
-			}
+			_ = ctxDoneSeen
 		}
 		// start offsets
 		sessionCommitted := map[string]int64{} // what the coordinator answered for each claim of this session
